@@ -510,7 +510,8 @@ def follow_up(ctx, world, case, where):
     before = world.state()
     # HTTP caching semantics: a tree whose stored validators are current is legitimately left alone
     expect = "new"
-    if sc["prev"] == "synced-current" and before == "old" and (sc["server"]["etag"] or sc["server"]["lastmod"]):
+    # ("path-missing": the old tree is parked in .gentoo.old; a syncer that puts it back finds it current)
+    if sc["prev"] == "synced-current" and before in ("old", "path-missing") and (sc["server"]["etag"] or sc["server"]["lastmod"]):
         expect = "old"
     res = crash.dry_run(world.sync_op(world.uri_good, False), [world.live])
     if res.status == "died":
